@@ -27,6 +27,7 @@ namespace Driver
 def dispatch (stream : String) : Option (String → String → CaseOut) :=
   match stream with
   | "ring" => some ringCase
+  | "ringsched" => some ringSchedCase
   | "wire" => some wireCase
   | "hostile" => some hostileCase
   | "sched" => some schedCase
